@@ -95,6 +95,7 @@ class RunResult(object):
         self.opcounts = {}
         self.outcomes = {}
         self.nontrivial = False
+        self.outcome_key = ""
         self.state_digest = None
         self.clock_span = 0.0
         self.wall = 0.0
@@ -142,6 +143,7 @@ def execute(oracle, ops_or_gen, seed, nsteps=None, rng=None):
         res.sched_digest = _sched_digest(res.ops)
         res.counters = dict(oracle.counters)
         res.probes = dict(oracle.probes)
+        res.outcome_key = getattr(oracle, "outcome_key", "")
         res.nontrivial = bool(oracle.nontrivial(w))
         res.state_digest = hashlib.sha1(
             (res.digest + json.dumps(sorted(res.opcounts.items()))).encode()
@@ -159,7 +161,7 @@ def simulate(oracle_cls, seed):
     cfg = proto.swarm(rng)
     oracle = oracle_cls(cfg)
     gen = oracle.make_gen(rng)
-    return execute(oracle, gen, seed, nsteps=cfg.get("steps", 20), rng=rng)
+    return execute(oracle, gen, seed, nsteps=cfg.get("total_steps", cfg.get("steps", 20)), rng=rng)
 
 
 def replay(oracle_cls, cfg, ops, seed):
